@@ -65,6 +65,30 @@ def build_unit(name, sentinel=False, disabled_hints=(), extra_consts=()):
     mod.build(u)
     # constants that changed code refers to and the unit description does not list: sliced from the unit's own source files
     for cname in extra_consts:
+        if cname.startswith('method:'):
+            # a method that changed code calls and the unit description does not list: sliced from an inherent impl of the
+            # unit's own source files, without contract (callers see only its signature)
+            mname = cname[len('method:'):]
+            done = False
+            for rel, src in list(u.sources.items()):
+                for it in src.items:
+                    if it.kind == 'impl' and ' for ' not in it.header and any(ch.kind == 'fn' and ch.name == mname for ch in it.children):
+                        hdr = re.sub(r'\s+', ' ', it.header).strip()
+                        if hdr.endswith('{'):
+                            hdr = hdr[:-1].strip()
+                        try:
+                            from . import rules as _rules
+                            u.emit(rel, hdr, only=[mname], rules=[_rules.r1_r2_map_collect(0, with_decreases=True), _rules.r13_assert_eq],
+                                   pre=(lambda t: re.sub(r'(?m)^(\s*(?:pub(?:\([a-z]+\))? )?fn )', r'#[verifier::exec_allows_no_decreases_clause]\n\1', t, count=1)))
+                        except Exception:
+                            continue
+                        u.autosliced_fns = getattr(u, 'autosliced_fns', []) + [mname]
+                        u.relaxed.append('method %s (not in the unit description) sliced from %s because the code now calls it - it has no contract, callers see only its signature' % (mname, rel))
+                        done = True
+                        break
+                if done:
+                    break
+            continue
         kind = 'const' if cname.upper() == cname else 'fn'
         for rel, src in list(u.sources.items()):
             try:
@@ -189,6 +213,9 @@ def verify_unit(name, tier='quick', seed=0, threads=8, disabled_hints=(), depth=
             m = re.match(r'cannot find (?:value|function) `([A-Za-z_][A-Za-z0-9_]*)` in this scope', t['message'])
             if m:
                 missing.add(m.group(1))
+            m = re.match(r'no method named `([A-Za-z_][A-Za-z0-9_]*)` found', t['message'])
+            if m:
+                missing.add('method:' + m.group(1))
         if missing and not (missing <= set(extra_consts)):
             return verify_unit(name, tier, seed, threads, disabled_hints, depth + 1, tuple(set(extra_consts) | missing))
     if tool or res is None or vr['rc'] not in (0, 1) or (res and res['verification-results'].get('encountered-vir-error')):
